@@ -24,6 +24,20 @@ def _load_known():
     return json.load(open(p))
 
 
+def _keep_partial(ex, sp, obs):
+    """obligations generated on the paths explored before the executor gave up are genuine (each is pc => goal on a real
+    path prefix): keep them, so a refutation among them is still reported; the function as a whole stays undecided"""
+    try:
+        if ex is None or ex.spec is not sp:
+            return
+        for ob in ex.obligations:
+            ob.fn = sp.qualname
+            ob.spec = sp
+        obs.extend(ex.obligations)
+    except Exception:
+        pass
+
+
 def run_specs(mod, scope=None, only=None):
     """Symbolically execute every function under contract; returns (obligations, per-function info, undecided list)."""
     sym_scope_prev = ground.SCOPE
@@ -38,6 +52,7 @@ def run_specs(mod, scope=None, only=None):
         obs, info, undecided, covers = [], [], [], []
         for sp in specs:
             t0 = time.time()
+            ex = None
             try:
                 ex = engine.Ex(sp, getattr(sp, "world", None))
                 o = ex.run()
@@ -68,8 +83,15 @@ def run_specs(mod, scope=None, only=None):
                         covers.append((sp, lab, ex.covers[lab]))
             except sym.Unsupported as e:
                 undecided.append(f"{sp.qualname}: unsupported construct: {e}")
+                _keep_partial(ex, sp, obs)
             except LookupError as e:
                 undecided.append(f"{sp.qualname}: {e}")
+                _keep_partial(ex, sp, obs)
+            except Exception as e:   # the sidecar contract could not follow the code's shape: undecided, never a verdict; what was generated so far is kept
+                import traceback
+                tb = traceback.extract_tb(e.__traceback__)[-1]
+                undecided.append(f"{sp.qualname}: contract could not be evaluated on this code ({type(e).__name__}: {e} at {os.path.basename(tb.filename)}:{tb.lineno}) - spec drift")
+                _keep_partial(ex, sp, obs)
         if hasattr(mod, "lemmas") and not only:
             for ob in mod.lemmas():
                 ob.spec = None
@@ -133,19 +155,20 @@ def verify(mod, tier, seed, only_fn=None, fast=False):
     return out, info, undecided
 
 
-def refute_grounded(mod, failed_ids, seed):
+def refute_grounded(mod, failed_ids, seed, scopes=(2, 3)):
     """Finite-scope grounded re-run for obligations the unbounded query did not prove: returns {id: (scope, model)}
     for those with a genuine finite counter-model."""
     found = {}
     if not getattr(mod, "GROUNDABLE", False):
         return found
-    for scope in (2, 3):
+    scopes = tuple(scopes) + tuple(sc for sc in getattr(mod, "GROUND_SCOPES", ()) if sc not in scopes and len(scopes) > 1)
+    for scope in scopes:
         todo = [i for i in failed_ids if i not in found]
         if not todo:
             break
         source.reset()
         try:
-            obs, _info, _und = run_specs(mod, scope=scope)
+            obs, _info, _und = run_specs(mod, scope=scope, only=getattr(refute_grounded, "only_fns", None))
         except Exception:
             continue
         for ob in obs:
@@ -262,8 +285,10 @@ def main(mod, tier, seed, replay=None):
         undecided_msgs.append("zero obligations generated")
     failed = [r for r in results if r["verdict"] != "proved"]
     grounded = {}
-    if failed and not (battery and battery.get("failures")):
-        grounded = refute_grounded(mod, [r["id"] for r in failed if r["verdict"] == "unknown"], seed)
+    if failed:
+        # with a native failing input already in hand only the smallest scope is searched (names the broken obligation)
+        refute_grounded.only_fns = sorted({r["fn"] for r in failed if r["verdict"] == "unknown" and r.get("fn")}) or None
+        grounded = refute_grounded(mod, [r["id"] for r in failed if r["verdict"] == "unknown"], seed, scopes=(2,) if (battery and battery.get("failures")) else (2, 3))
         for r in failed:
             if r["id"] in grounded:
                 r["verdict"] = "refuted"
